@@ -84,6 +84,7 @@ type HarnessResult struct {
 	SolverErrs  []string
 	Assumes     int
 	SkippedTier bool
+	AllocBound  int64
 }
 
 type loaded struct {
@@ -179,6 +180,11 @@ func loadGroup(g GroupCfg) (*loaded, error) {
 		}
 	}
 	l.loadS = time.Since(t0).Seconds()
+	loadedMu.Lock()
+	for _, h := range g.Harnesses {
+		loadedByHarness[h.Name] = l
+	}
+	loadedMu.Unlock()
 	return l, nil
 }
 
@@ -273,6 +279,7 @@ func runHarness(l *loaded, h HarnessCfg, tier string) HarnessResult {
 	if alloc == 0 {
 		alloc = 1 << 16
 	}
+	r.AllocBound = alloc
 	root := &State{Objs: map[int]Value{}, Globals: map[*ssa.Global]int{}, Names: map[string]int{}, Ghost: map[string]Value{},
 		Inited: map[*ssa.Package]bool{}, Unwind: unwind, Alloc: alloc}
 	params := tc.Params
@@ -370,6 +377,13 @@ func main() {
 		}
 		r := runHarness(l, g.Harnesses[0], "quick")
 		printResult(r)
+		os.MkdirAll("/tmp/verif-run", 0o755)
+		for n, f := range r.Findings {
+			path := fmt.Sprintf("/tmp/verif-run/%s-%d.json", r.Name, n)
+			b, _ := json.MarshalIndent(map[string]interface{}{"harness": r.Name, "kind": f.Kind, "site": f.Where, "model": f.Model}, "", " ")
+			os.WriteFile(path, b, 0o644)
+			fmt.Printf("   replay of %s @ %s: %s\n", f.Kind, f.Where, replayFinding(CheckCfg{}, r, f, path))
+		}
 	default:
 		fmt.Fprintln(os.Stderr, "unknown command")
 		os.Exit(2)
